@@ -57,7 +57,7 @@ PLAN = _drive.Plan(
     always=("assess_self",),
     exc_is_violation=False,
 )
-PLAN.budget_s = (40, 400)
+PLAN.budget_s = (40, 240)
 
 
 def _exc_name(e):
@@ -203,5 +203,5 @@ def run(ctx):
     for k in list(ctx.counters):
         pass
     ctx.count("ledger_checks", ctx.counters.get("assess_self_checks", 0))
-    reuse_monitor(ctx, ctx.pick(64, 600), ctx.pick(20, 250))
-    missing_monitor(ctx, ctx.pick(64, 600), ctx.pick(25, 250))
+    reuse_monitor(ctx, ctx.pick(64, 600), ctx.pick(20, 120))
+    missing_monitor(ctx, ctx.pick(64, 600), ctx.pick(25, 120))
